@@ -408,6 +408,61 @@ func gatedPhase(r *ev.Run, e *etcdx.Etcd) {
 	r.Set("gated_dfs_complete", true)
 }
 
+// flipPhase enumerates "leadership goes away and comes back" histories completely over a small
+// grid: L(a) Alloc(a)xn1, L(b) Alloc(b)xn2, L(a) Alloc(a)xn3 with counts around the window size,
+// with and without the protocol's Rebase when leadership is taken. The instance that gets the
+// leadership back still holds (part of) its old in-memory window.
+func flipPhase(r *ev.Run, e *etcdx.Etcd) {
+	counts := []int{1, 999, 1000, 1001, 2001}
+	n := 0
+	for _, n1 := range counts {
+		for _, n2 := range counts {
+			for _, n3 := range counts {
+				for _, rebase := range []bool{false, true} {
+					n++
+					w, err := newWorld(r, e, 2, fmt.Sprintf("f%d-%d", r.Shard, n))
+					if err != nil {
+						r.Inconclusive("world: %v", err)
+						return
+					}
+					burst := func(m, cnt int) {
+						fails := 0
+						for i := 0; i < cnt && fails < 3; i++ {
+							if _, err := w.alloc(m); err != nil {
+								fails++
+							}
+						}
+						w.steps = append(w.steps, fmt.Sprintf("alloc(m%d x%d)", m, cnt))
+					}
+					take := func(m int) {
+						w.setLeader(m)
+						if rebase {
+							w.insts[m].Rebase()
+							w.steps = append(w.steps, fmt.Sprintf("rebase(%d)", m))
+						}
+					}
+					take(0)
+					burst(0, n1)
+					take(1)
+					burst(1, n2)
+					take(0)
+					burst(0, n3)
+					burst(1, 2) // the instance that lost the record again still may serve from its window
+					r.Eval(1)
+					r.Count("flip_histories", 1)
+					r.Distinct(fmt.Sprintf("flip|%d|%d|%d|%v", n1, n2, n3, rebase))
+					w.judge("leader-flip", map[uint64]allocEv{})
+					w.close()
+					if r.Violations() > 0 {
+						return
+					}
+				}
+			}
+		}
+	}
+	r.Set("flip_grid_complete", true)
+}
+
 func levelB(r *ev.Run, rng *rand.Rand) {
 	cfgs := srv.NewConfigs(1, nil)
 	m, err := srv.Start(cfgs[0])
@@ -503,6 +558,9 @@ func main() {
 		r.Finish()
 	}
 	gatedPhase(r, e)
+	if r.Violations() == 0 {
+		flipPhase(r, e)
+	}
 	nh := r.Pick(60, 600)
 	for h := 0; h < nh && r.Violations() == 0; h++ {
 		seenW := map[uint64]allocEv{} // ids are per root path
